@@ -339,7 +339,18 @@ func genJunk(r *hk.Rand) string {
 		t := []byte(c.Text)
 		for n := r.Range(1, 3); n > 0 && len(t) > 0; n-- {
 			i := r.Intn(len(t))
-			switch r.Intn(4) {
+			switch r.Intn(5) {
+			case 4:
+				// white space strings.TrimSpace knows beyond ASCII (and fragments of their encodings),
+				// preferably next to a comma, "=" or quote
+				ws := hk.Pick(r, []string{"\u00a0", "\u0085", "\u2003", "\u3000", "\u1680", "\u202f", "\u2028", "\u205f", "\u200a", "\u200b", "\xc2", "\x85", "\xe2\x80", "\xa0", "\v", "\f"})
+				for k := 0; k < 8 && i < len(t)-1 && !strings.ContainsRune(",=\" ", rune(t[i])); k++ {
+					i++
+				}
+				if r.Chance(50) && i < len(t) {
+					i++
+				}
+				t = append(t[:i], append([]byte(ws), t[i:]...)...)
 			case 0:
 				t = append(t[:i], t[i+1:]...)
 			case 1:
